@@ -47,6 +47,27 @@ fn show(f: &[T]) -> String {
     f.iter().map(|t| { let tg = match TAGS[t.tag as usize] { Some(x) => format!("#{}", x), None => String::new() };
         if t.kids.is_empty() { format!("{:?}({},{}){}", t.rule, t.start, t.end, tg) } else { format!("{:?}({},{},[{}]){}", t.rule, t.start, t.end, show(&t.kids), tg) } }).collect::<Vec<_>>().join(",")
 }
+thread_local! { static KNOWN_F6: std::cell::Cell<bool> = std::cell::Cell::new(false); }
+/// `{:#}` of a pair: rule(start, end) or rule(start, end, [children])
+fn alt(t: &T) -> String {
+    if t.kids.is_empty() { format!("{:?}({}, {})", t.rule, t.start, t.end) }
+    else { format!("{:?}({}, {}, [{}])", t.rule, t.start, t.end, t.kids.iter().map(alt).collect::<Vec<_>>().join(", ")) }
+}
+/// `{:?}` of a pair: Pair { rule, [node_tag,] span: Span { str, range }, inner: [..] }
+fn dbg(t: &T, input: &str) -> String {
+    let tag = match TAGS[t.tag as usize] { Some(x) => format!("node_tag: {:?}, ", x), None => String::new() };
+    format!("Pair {{ rule: {:?}, {}span: Span {{ str: {:?}, range: {}..{} }}, inner: [{}] }}", t.rule, tag, &input[t.start..t.end], t.start, t.end,
+        t.kids.iter().map(|k| dbg(k, input)).collect::<Vec<_>>().join(", "))
+}
+/// JSON of a non-empty Pairs: {"pos": [start of the first, end of the last], "pairs": [..]}
+fn json_pairs(f: &[T], input: &str) -> serde_json::Value {
+    serde_json::json!({ "pos": [f[0].start, f[f.len() - 1].end], "pairs": f.iter().map(|t| json(t, input)).collect::<Vec<_>>() })
+}
+/// JSON of a pair: {"pos": [start, end], "rule": "r", "inner": text (leaf) | the JSON of its children}
+fn json(t: &T, input: &str) -> serde_json::Value {
+    let inner = if t.kids.is_empty() { serde_json::Value::String(input[t.start..t.end].to_string()) } else { json_pairs(&t.kids, input) };
+    serde_json::json!({ "pos": [t.start, t.end], "rule": format!("{:?}", t.rule), "inner": inner })
+}
 fn flat<'a>(f: &'a [T], out: &mut Vec<&'a T>) { for t in f { out.push(t); flat(&t.kids, out); } }
 
 fn same(p: &Pair<Rule>, t: &T, input: &str) -> Result<(), String> {
@@ -87,6 +108,7 @@ fn check_pairs(ps: Pairs<Rule>, f: &[T], input: &str, depth: usize) -> Result<()
     for sched in 0..(1u32 << fl.len().min(6)) {
         let mut it = ps.clone().flatten(); let (mut lo, mut hi) = (0usize, fl.len());
         for step in 0..fl.len() {
+            if it.len() != hi - lo || it.size_hint() != (hi - lo, Some(hi - lo)) { return Err(format!("flatten(): len() = {}, size_hint() = {:?} with {} pairs left (schedule {:b}, step {})", it.len(), it.size_hint(), hi - lo, sched, step)); }
             let back = step < 6 && (sched >> step) & 1 == 1;
             let (p, t) = if back { hi -= 1; (it.next_back(), fl[hi]) } else { lo += 1; (it.next(), fl[lo - 1]) };
             let p = p.ok_or_else(|| format!("flatten(): {} returns None at step {} of schedule {:b} although {} pairs are left", if back { "next_back" } else { "next" }, step, sched, hi + 1 - lo))?;
@@ -105,6 +127,27 @@ fn check_pairs(ps: Pairs<Rule>, f: &[T], input: &str, depth: usize) -> Result<()
             (Some(p), Some(t)) => same(&p, t, input).map_err(|e| format!("find_first_tagged({:?}) is not the first tagged pair in pre-order: {}", tg, e))?,
             (g, w) => return Err(format!("find_first_tagged({:?}) is_some = {}, the tree has {} tagged pairs", tg, g.is_some(), if w.is_some() { "some" } else { "no" })),
         }
+    }
+    // text views: Display, alternate Display, Debug and JSON, against renderings computed from the tree
+    let want_disp = format!("[{}]", f.iter().map(|t| input[t.start..t.end].to_string()).collect::<Vec<_>>().join(", "));
+    if format!("{}", ps) != want_disp { return Err(format!("Display {:?} != {:?}", format!("{}", ps), want_disp)); }
+    let want_alt = format!("[{}]", f.iter().map(alt).collect::<Vec<_>>().join(", "));
+    if format!("{:#}", ps) != want_alt { return Err(format!("alternate Display {:?} != {:?}", format!("{:#}", ps), want_alt)); }
+    let want_dbg = format!("[{}]", f.iter().map(|t| dbg(t, input)).collect::<Vec<_>>().join(", "));
+    if format!("{:?}", ps) != want_dbg { return Err(format!("Debug {:?} != {:?}", format!("{:?}", ps), want_dbg)); }
+    for (p, t) in ps.clone().zip(f.iter()) {
+        if format!("{}", p) != input[t.start..t.end] { return Err(format!("Pair Display {:?}", format!("{}", p))); }
+        if format!("{:#}", p) != alt(t) { return Err(format!("Pair alternate Display {:?} != {:?}", format!("{:#}", p), alt(t))); }
+        let got: serde_json::Value = serde_json::from_str(&p.to_json()).map_err(|e| format!("Pair::to_json is not JSON: {}", e))?;
+        if got != json(t, input) { return Err(format!("Pair::to_json {} != {}", got, json(t, input))); }
+    }
+    if f.is_empty() && depth == 4 {
+        // KNOWN (F6): Pairs::to_json indexes queue[start] / queue[end - 1] and panics on an empty top-level Pairs; reported separately
+        if catch_unwind(AssertUnwindSafe(|| ps.to_json())).is_err() { KNOWN_F6.with(|c| c.set(true)); }
+    } else if !f.is_empty() {
+        let got: serde_json::Value = serde_json::from_str(&ps.to_json()).map_err(|e| format!("Pairs::to_json is not JSON: {}", e))?;
+        let want = json_pairs(f, input);
+        if got != want { return Err(format!("Pairs::to_json {} != {}", got, want)); }
     }
     // per pair: into_inner, single, tokens
     for (p, t) in ps.clone().zip(f.iter()) {
@@ -138,7 +181,8 @@ fn main() {
         let g = remap(&f, &bds);
         if let Err(e) = run(input, &g) { println!("WITNESS {{\"tree\":\"{}\",\"input\":\"x\\u00e9z\",\"what\":\"{}\"}}", show(&g), e.replace('"', "'")); return; }
     } }
-    println!("NO-WITNESS all forests with <= 3 nodes over the 4 boundaries of a 3-character input, with every assignment of node tags from {{none, t, u}}, agree in every view");
+    if KNOWN_F6.with(|c| c.get()) { println!("KNOWN-WITNESS F6 {{\"tree\":\"\",\"what\":\"Pairs::to_json panics on an empty top-level Pairs (serialize indexes queue[start] and queue[end - 1])\"}}"); }
+    println!("NO-WITNESS all forests with <= 3 nodes over the 4 boundaries of a 3-character input, with every assignment of node tags from {{none, t, u}}, agree in every view (walks, len, peek, tokens, flatten in every schedule, single, into_inner, node tags, Display, alternate Display, Debug, JSON)");
 }
 // positions 0..3 index boundaries
 fn remap(f: &[T], b: &[usize]) -> Vec<T> { f.iter().map(|t| T { rule: t.rule, start: b[t.start], end: b[t.end], kids: remap(&t.kids, b), tag: t.tag }).collect() }
